@@ -367,8 +367,14 @@ class Gen:
     def enum(self):
         ch = self.ch
         items = []
+        rich = "enum_values" not in self.excl
         for i in range(ch.count(1, 3)):
-            items.append([self.name("e"), ch.choice([None, None, str(i * 3 + 1)])])
+            v = ch.choice([None, None, str(i * 3 + 1)] + ([f"{i * 3 + 2}_4", f"{i * 3 + 2}_8"] if rich else []))
+            if rich and i and items[-1][1] is not None and ch.bool(1, 4):
+                v = f"{items[-1][0]} + 4"        # a constant expression naming the enumerator before
+            if v is None and i and items[-1][1] is not None and "+" in items[-1][1]:
+                v = str(i * 3 + 1)               # (what follows an expression is given explicitly)
+            items.append([self.name("e"), v])
         return {"d": "enum", "items": items, "docs": {}}
 
     def exec_decoys(self, p):
@@ -686,7 +692,8 @@ class Gen:
                     p["exec"].append(f"{rn} = {val}")
             # local data of the implementation (its documentation is an "internal" of the procedure)
             for _ in range(ch.count(0, 2)):
-                p["decls"].append(self.var_decl({"_kinds": []}, "local"))
+                # (the implementation of a PURE / ELEMENTAL interface is pure itself: no SAVE, no initialisation)
+                p["decls"].append(self.var_decl({"_kinds": [], "_pure": bool(b.get("_pure")), "k": b["k"]}, "local"))
             s["procs"].append(p)
         return s
 
